@@ -196,12 +196,13 @@ def run : List String → Option String
     match Script.parse (← charsOfHex hscript) with
     | none => some "error bad-sexpr"
     | some s => some (hexOfChars (printLingoText s))
-  -- classes <hex handler sexpr> -> failure classes of C03 the handler body falls into (comma separated, sorted; "-" = Supported)
+  -- classes <hex handler sexpr> -> failure classes of C03 the handler body falls into (comma separated, sorted), then `withlike` if it contains the repeat-while spelling of a repeat-with; "-" = Supported
   | ["classes", hh] => do
     match Handler.parse (← charsOfHex hh) with
     | none => some "error bad-sexpr"
     | some h =>
       let cs := (exitClasses h.body).toArray.qsort (· < ·) |>.toList
+      let cs := if hasWithLikeL h.body then cs ++ ["withlike"] else cs
       some (if cs.isEmpty then "-" else ",".intercalate cs)
   -- const <x> -> x (expected value of an observable the spec fixes, e.g. the number of raw jump pseudo-statements: 0)
   | ["const", x] => some x
